@@ -5,6 +5,7 @@
      F c jid res|- err|-     Finish         K c jid,jid    Kill           T dt   Tick
      D c   Disconnect        C k  Choice    W c jid  Wait  I jid  Info    S jid v  SetInfo
      X     Stats             R    restart (restore (save s)): not an op of the model's alphabet
+     U dt  Advance (clock only, no handletimeouts sweep)   Y jid,jid  Drop (rpc_qdrop)   G  Watchdog (dropdead)
    jid = a<n> (auto/int id) | n<n> (client string id).
    Second mode:  driver.exe enum <depth> <maxstates>  : breadth-first exploration of the model's
    state graph over the bounded alphabet (see `alphabet`), prints one representative history per
@@ -23,7 +24,7 @@ let err_s = function ENone -> "null" | EStr n -> si n
 let list_s f l = "[" ^ String.concat "," (List.map f l) ^ "]"
 let bool_s b = if b then "true" else "false"
 let job_s j = "[" ^ String.concat "," [si j.j_serial; jid_s j.j_id; si j.j_chan; si j.j_prio; si j.j_timeout;
-  bool_s j.j_done; err_s j.j_err; opt_s si j.j_res; opt_s si j.j_info; si j.j_ttl] ^ "]"
+  bool_s j.j_done; err_s j.j_err; opt_s si j.j_res; opt_s si j.j_info; si j.j_ttl; opt_s si j.j_dl; bool_s j.j_drop] ^ "]"
 let counts_s c = "[" ^ String.concat "," [si c.n_error; si c.n_timeout; si c.n_killed; si c.n_success] ^ "]"
 let out_s = function
   | OJid i -> "[\"jid\"," ^ jid_s i ^ "]"
@@ -88,6 +89,9 @@ let parse_op t = match t with
   | ["I"; i] -> Some (Info (pjid i))
   | ["S"; i; v] -> Some (SetInfo (pjid i, nn v))
   | ["X"] -> Some Stats
+  | ["U"; dt] -> Some (Advance (nn dt))
+  | ["Y"; js] -> Some (Drop (jlist js))
+  | ["G"] -> Some Watchdog
   | _ -> None
 
 (* ---------------------------------------------------------------- text form of ops (for enum) *)
@@ -107,6 +111,9 @@ let op_t = function
   | Info i -> "I " ^ jid_t i
   | SetInfo (i, v) -> Printf.sprintf "S %s %s" (jid_t i) (si v)
   | Stats -> "X"
+  | Advance dt -> "U " ^ si dt
+  | Drop js -> "Y " ^ (if js = [] then "-" else String.concat "," (List.map jid_t js))
+  | Watchdog -> "G"
 
 (* bounded alphabet of the property's quantifier: 2 channels, <= maxjobs jobs, 3 workers; symmetry reduction:
    worker k+1 is used only after worker k was used; client id n1 only after n0; the second channel only after
